@@ -134,7 +134,15 @@ def run(ctx):
         ctx.sample({"replayed": obj["transition"], "reproduced": found})
         return
     specs = plan(ctx.tier, ctx.seed)
-    results = auth_lib.run_many(ctx, specs, parallel=len(specs) if ctx.tier == "quick" else 4)
+    try:
+        results = auth_lib.run_many(ctx, specs, parallel=len(specs) if ctx.tier == "quick" else 4)
+    except vlib.BrokerCrash as e:
+        # a goroutine of the broker (no harness frame below it) brought the process down while CONNECTs were replayed: nobody
+        # is accepted any more, whatever the credentials
+        ctx.cov["rule"] = "replay of AuthGate.tla transitions on real brokers; the run ended with a crash of the broker process"
+        ctx.violation("the broker crashed while CONNECT attempts were replayed: %s in %s" % (e.headline, e.frame),
+                      {"signature": "c19:broker-crashed:" + e.frame, "kind": "crash", "trace": e.trace})
+        return
     agg = {}
     alldivs = []
     packs = []
